@@ -36,7 +36,7 @@ func c02(o Opts) error {
 	addAll("type-names", typeNameValues(zctx))
 	nrand := 1000
 	if thorough {
-		nrand = 60000
+		nrand = 150000
 	}
 	for _, v := range randomValues(rng, zctx, nrand) {
 		pool = append(pool, src{v, "random"})
@@ -58,7 +58,7 @@ func c02(o Opts) error {
 	// ---- 2. streams: typedef scope per stream / per value, persist
 	nstreams := 200
 	if thorough {
-		nstreams = 8000
+		nstreams = 20000
 	}
 	cfgs := []streamCfg{}
 	for _, mode := range []string{"writer", "format", "record", "persist-call"} {
@@ -72,14 +72,22 @@ func c02(o Opts) error {
 		}
 	}
 	// streams biased to values with named types (redefinitions across values)
-	var namedIdx []int
+	// Streams are built from values that round-trip on their own, so that a
+	// failure of a stream is a failure of the state shared between values
+	// (values that fail alone have been reported above).
+	var namedIdx, okIdx []int
 	for i, s := range pool {
+		if !singleOK[i] {
+			continue
+		}
+		okIdx = append(okIdx, i)
 		set := map[string]bool{}
 		typeFeatures(s.v.Type(), set)
 		if set["named"] {
 			namedIdx = append(namedIdx, i)
 		}
 	}
+	res.CountN("values_failing_alone_excluded_from_streams", len(pool)-len(okIdx))
 	for k := 0; k < nstreams; k++ {
 		n := 2 + rng.Intn(6)
 		var idxs []int
@@ -91,7 +99,7 @@ func c02(o Opts) error {
 			case rng.Chance(2, 3) && len(namedIdx) > 0:
 				idxs = append(idxs, Pick(rng, namedIdx))
 			default:
-				idxs = append(idxs, rng.Intn(len(pool)))
+				idxs = append(idxs, Pick(rng, okIdx))
 			}
 		}
 		var vals []zed.Value
@@ -106,10 +114,19 @@ func c02(o Opts) error {
 
 	// designed streams: names redefined across values, references to earlier
 	// typedefs, under every configuration
-	for _, st := range designedStreams(zctx) {
+	for _, all := range designedStreams(zctx) {
+		var st []zed.Value
 		var oks []bool
-		for _, v := range st {
-			oks = append(oks, checkSingleQuiet(zctx, v))
+		for _, v := range all {
+			if checkSingleQuiet(zctx, v) {
+				st = append(st, v)
+				oks = append(oks, true)
+			} else {
+				res.Count("designed_stream_value_failing_alone")
+			}
+		}
+		if len(st) == 0 {
+			continue
 		}
 		for _, cfg := range cfgs {
 			checkStream(res, zctx, st, oks, cfg)
@@ -131,6 +148,9 @@ func c02(o Opts) error {
 		return err
 	}
 	res.Rule = "values: exhaustive boundary lists (every primitive type x boundary values, every type kind as null/type value/empty container/element, names from a list of identifier/keyword/quoted/unicode/control-character spellings, unions with 0..k members seen, redefined names) plus seeded random values of depth <= 4 over the whole type system; each formatted 4 ways and parsed in a fresh context; streams of 2-7 values x {Writer, Formatter.Format, FormatRecord, Persist()} x pretty {0,2,4} x 4 persist regexps; JSON documents from a grammar-directed generator read by jsonio and by zson/zsonio; non-trivial = distinct complex non-null value, distinct JSON document with a container, distinct escaped string"
+	if slowCalls > 0 {
+		res.Notes = append(res.Notes, fmt.Sprintf("%d guarded calls took more than 30 s (machine load)", slowCalls))
+	}
 	res.Write(o.Out)
 	if res.Dist["failures"] > 0 {
 		fmt.Fprintf(os.Stderr, "c02: %d oracle failures\n", res.Dist["failures"])
